@@ -74,7 +74,7 @@ def run(tier):
     # layout:  xor eax,eax ; <branch d> ; d bytes of 'ret' (c3) ; mov rax, K ; ret        (forward, d >= 0)
     #          xor eax,eax ; jmp over ; T: mov rax, K ; ret ; over: <branch -(len(T block)+len(branch))>   (backward)
     # after 'xor eax,eax': ZF=1 PF=1 SF=0 CF=0 OF=0, so these conditional jumps are taken:
-    taken = {"je", "jae", "jge", "jle", "jns", "jno", "jp", "jmp"}
+    taken = {"je", "jae", "jbe", "jge", "jle", "jns", "jno", "jp", "jmp"}  # ZF=1: jbe (CF or ZF) is taken
     not_taken = {"jne", "ja", "jb", "jg", "jl", "js", "jo", "jnp"}
     plain = common.build("plain")
     ex, exmeta = [], []
